@@ -242,6 +242,7 @@ theorem step_sound {lib : Lib} {recC : Ctx → Expr → Outs} (hrecAll : ∀ cx,
   | taskv n => simp only [step] at h; rw [mem_singleton_ok h]; exact Eval.leaf rfl
   | partialv t a kn kv => simp only [step] at h; rw [mem_singleton_ok h]; exact Eval.leaf rfl
   | threadv e => simp only [step] at h; rw [mem_singleton_ok h]; exact Eval.leaf rfl
+  | objv c a => simp only [step] at h; rw [mem_singleton_ok h]; exact Eval.leaf rfl
   | vexpr v =>
     simp only [step] at h
     split at h
@@ -528,6 +529,7 @@ mutual
     | .taskv _, _ => Eval.leaf rfl
     | .partialv _ _ _ _, _ => Eval.leaf rfl
     | .threadv _, _ => Eval.leaf rfl
+    | .objv _ _, _ => Eval.leaf rfl
     | .cont k items, h => by
       simp only [isValue, Bool.and_eq_true] at h
       have hl := values_self (lib := lib) items h.1
@@ -604,6 +606,7 @@ mutual
     | .taskv _, _ => fun r h => by cases h; rfl
     | .partialv _ _ _ _, _ => fun r h => by cases h; rfl
     | .threadv _, _ => fun r h => by cases h; rfl
+    | .objv _ _, _ => fun r h => by cases h; rfl
     | .cont k items, hv => fun r h => by
       simp only [isValue, Bool.and_eq_true] at hv
       have hu := list_unique (lib := lib) items (values_unique items hv.1)
@@ -1043,6 +1046,7 @@ theorem step_complete {lib : Lib} {recC : Ctx → Expr → Outs} (hrecAll : ∀ 
   | taskv n => cases h; simp [step]
   | partialv t a kn kv => cases h; simp [step]
   | threadv e => cases h; simp [step]
+  | objv c a => cases h; simp [step]
   | vexpr v =>
     cases h with
     | leaf h => simp [isLeaf] at h
